@@ -149,6 +149,13 @@ def programs():
     add("f(g(a))", Node("call", "int", "h1", Node("call", "int", "h2", X, I(1))), {"h1": (1, 1), "h2": (1, 1)})
     add("a.f(b).g()", Node("meth", "int", "h1", Node("meth", "int", "h2", X, I(1))), {"h1": (1, 1), "h2": (1, 1)})
     add("f(a+1, b*2)", Node("call", "int", "h2", Node("bin", "int", "+", X, I(1)), Node("bin", "int", "*", X, I(2))), {"h2": (1, 1)})
+    add("f(a)+f(a)", Node("bin", "int", "+", Node("call", "int", "h1", X), Node("call", "int", "h1", X)), {"h1": (2, 2)})
+    add("f(a)+f(a)+f(b)", Node("bin", "int", "+", Node("bin", "int", "+", Node("call", "int", "h1", X), Node("call", "int", "h1", X)), Node("call", "int", "h1", I(9))), {"h1": (3, 3)})
+    add("a.f(b)+a.f(b)", Node("bin", "int", "+", Node("meth", "int", "h2", X, I(5)), Node("meth", "int", "h2", X, I(5))), {"h2": (2, 2)})
+    add("f()+f()", Node("bin", "int", "+", Node("call", "int", "h0"), Node("call", "int", "h0")), {"h0": (2, 2)})
+    add("map(e, f(a)) loop-invariant", Node("macro", ("list", "int"), "map", Node("list", ("list", "int"), I(1), I(2), I(3)), "e", Node("call", "int", "h1", X)), {"h1": (3, 3)})
+    add("map(e, a.f(b)) loop-invariant", Node("macro", ("list", "int"), "map", Node("list", ("list", "int"), I(1), I(2), I(3)), "e", Node("meth", "int", "h2", X, I(5))), {"h2": (3, 3)})
+    add("filter(e, fb(a)) loop-invariant", Node("macro", ("list", "int"), "filter", Node("list", ("list", "int"), I(1), I(2), I(3)), "e", Node("call", "bool", "hb", X)), {"hb": (3, 3)})
     add("[f(a)]", Node("list", ("list", "int"), Node("call", "int", "h1", X)), {"h1": (1, 1)})
     add("{k: f(a)}", Node("map", ("map", "string", "int"), (S("k"), Node("call", "int", "h1", X))), {"h1": (1, 1)})
     add("f(a) == 1", Node("bin", "bool", "==", Node("call", "int", "h1", X), I(4)), {"h1": (1, 1)})
